@@ -3,47 +3,35 @@
 package dynamiccache
 
 import (
+	"reflect"
+
 	apimachinerymeta "k8s.io/apimachinery/pkg/api/meta"
 	"k8s.io/apimachinery/pkg/runtime"
-	"k8s.io/apimachinery/pkg/runtime/schema"
 	"k8s.io/client-go/dynamic"
+	"k8s.io/client-go/rest"
 )
 
 // Add-only accessors for the /verif correspondence harness (C12, real InformerMap).
 
-// VerifNewCacheOnRealInformerMap wires a Cache and a real InformerMap exactly like
-// NewCache/NewInformerMap do (default options, no metrics recorder), except that the
-// dynamic client is injected instead of being built from a rest.Config.
+// VerifNewCacheOnRealInformerMap builds a Cache with the real constructors (NewCache ->
+// NewInformerMap, default options, no metrics recorder) and then swaps the dynamic client
+// of the informer map for the given one; the rest.Config is never dialled.
 func VerifNewCacheOnRealInformerMap(
 	scheme *runtime.Scheme, mapper apimachinerymeta.RESTMapper, dyn dynamic.Interface,
 ) *Cache {
-	c := &Cache{
-		scheme:             scheme,
-		informerReferences: map[schema.GroupVersionKind]map[OwnerReference]struct{}{},
-		cacheSource:        &cacheSource{},
-	}
-	c.opts.Default()
-	c.informerMap = &InformerMap{
-		scheme:    scheme,
-		mapper:    mapper,
-		resync:    c.opts.ResyncInterval,
-		selectors: c.opts.Selectors.forGVK,
-		indexers:  c.opts.Indexers.forGVK,
-
-		informers:     map[schema.GroupVersionKind]mapEntry{},
-		dynamicClient: dyn,
-	}
+	c := NewCache(&rest.Config{Host: "http://127.0.0.1:1"}, scheme, mapper, nil)
+	// the field is reached by name so that this file keeps compiling when its type changes
+	im := reflect.ValueOf(c.informerMap).Elem()
+	f := im.FieldByName("dynamicClient")
+	reflect.NewAt(f.Type(), f.Addr().UnsafePointer()).Elem().Set(reflect.ValueOf(dyn))
 	return c
 }
 
-// VerifInformerMapHas reports whether the real informer map of the cache has an entry for gvk.
-func (c *Cache) VerifInformerMapHas(gvk schema.GroupVersionKind) bool {
-	im, ok := c.informerMap.(*InformerMap)
-	if !ok {
-		return false
+// VerifInformerMapLen is the number of entries of the real informer map (diagnostics).
+func (c *Cache) VerifInformerMapLen() int {
+	f := reflect.ValueOf(c.informerMap).Elem().FieldByName("informers")
+	if !f.IsValid() {
+		return -1
 	}
-	im.informersMux.RLock()
-	defer im.informersMux.RUnlock()
-	_, found := im.informers[gvk]
-	return found
+	return f.Len()
 }
